@@ -200,3 +200,9 @@ mod tests {
         //vsock.stop().unwrap();
     }
 }
+
+// Verification harnesses (Kani); the sources live outside this repository.
+#[cfg(feature = "verif")]
+mod verif {
+    include!(concat!(env!("VHOST_VERIF_DIR"), "/harness/vk_vsock.rs"));
+}
